@@ -297,9 +297,48 @@ func checkC12(c c12Case) verdict {
 				break
 			}
 		}
+		// the suite is handed over by value, or — a third of the steps — through a pointer (*SuiteConfig and *RawSuite
+		// implement Suite as well): what the pointer leads to is the caller's and stays as it is, also when it is an
+		// "incomplete" configuration that carries nothing but a suite name
+		var suiteArg otp.Suite = lc
+		var ptrCfg *otp.SuiteConfig
+		var ptrRaw *otp.RawSuite
+		switch (st.U >> 20) % 6 {
+		case 0:
+			ptrCfg = &otp.SuiteConfig{}
+			*ptrCfg = lc
+			suiteArg = ptrCfg
+		case 1:
+			ptrRaw = &otp.RawSuite{SuiteConfig: lc}
+			suiteArg = ptrRaw
+		case 2:
+			names := registeredNames
+			ptrRaw = &otp.RawSuite{SuiteConfig: otp.SuiteConfig{Raw: names[int(st.U>>24)%len(names)]}}
+			suiteArg = ptrRaw
+		}
+		var ptrCfgCopy otp.SuiteConfig
+		var ptrRawCopy otp.RawSuite
+		if ptrCfg != nil {
+			ptrCfgCopy = *ptrCfg
+		}
+		if ptrRaw != nil {
+			ptrRawCopy = *ptrRaw
+		}
+		checkPtr := func() error {
+			if ptrCfg != nil && *ptrCfg != ptrCfgCopy {
+				return fmt.Errorf("the SuiteConfig behind the caller's pointer changed: %+v -> %+v", ptrCfgCopy, *ptrCfg)
+			}
+			if ptrRaw != nil && *ptrRaw != ptrRawCopy {
+				return fmt.Errorf("the RawSuite behind the caller's pointer changed: %+v -> %+v", ptrRawCopy, *ptrRaw)
+			}
+			return nil
+		}
 		switch st.Op {
 		case "GenerateOCRA":
-			code, err := otp.GenerateOCRA(c12Secret, lc, in)
+			code, err := otp.GenerateOCRA(c12Secret, suiteArg, in)
+			if e := checkPtr(); e != nil {
+				return bad(true, labels, "step %d GenerateOCRA: %v", i, e)
+			}
 			if err == nil {
 				keep(code, "OCRA code")
 				labels = append(labels, "admitted")
@@ -314,8 +353,11 @@ func checkC12(c c12Case) verdict {
 					code = want
 				}
 			}
-			if okk, _ := otp.ValidateOCRA(c12Secret, code, lc, in); okk {
+			if okk, _ := otp.ValidateOCRA(c12Secret, code, suiteArg, in); okk {
 				labels = append(labels, "accepted")
+			}
+			if e := checkPtr(); e != nil {
+				return bad(true, labels, "step %d ValidateOCRA: %v", i, e)
 			}
 		case "OCRAInput.Validate":
 			_ = in.Validate(lc)
